@@ -116,9 +116,17 @@ CLAIMS.update({
     ),
 })
 
+CLAIMS.update({
+    "C07": dict(
+        technique="dimensional analysis of the block updates by structural abstract interpretation of the whole driver (data tensor and initialiser output as symbols; first store per store site observed) + guard-dominance lint for line-search acceptance",
+        text="PARTIAL claim; decides two necessary conditions, not descent itself. (UPDATE-DEGREE) the value each least-squares block update stores into the model -- CP-ALS, HALS non-negative CP (HALS and unconstrained branch), TR-ALS (lstsq and normal equations), the CP and Tucker regressors' ALS (ridge 0), CMTF's matrix-side factor, HOOI -- has the homogeneity degree of the exact block minimiser (+1 in the data, -1 in every other block and in the weights): with any other degree, rescaling the other blocks makes the residual after the update exceed the residual before it, so the sweep increases the objective for some input. Catches weights/factors missing from or doubled in the Gram matrix or the right-hand side, Gram products over the wrong set of modes, a sub-chain one core short. (ACCEPT-GUARDED) a line-search extrapolation replaces the iterate (CP-ALS) or is returned (PARAFAC2) only in the true branch of `error(extrapolated) < recorded error`. NOT decided: monotone descent, PARAFAC2's projection step, CMTF's coupled factor, the HALS inner solver's arithmetic (see C13), conditioning.",
+        note="Trusted: degree specification of solve/lstsq (b - A), of the NNLS solvers (UtM - UtU), of svd (scale-free vectors) and of the tenalg primitives (C02); drivers analysed with ridge 0, no mask, no sparsity.",
+        design="DESIGN.md §18 (C07)",
+    ),
+})
+
 NA = {
     "C05": "Singular values, orthonormality and optimal truncation error are numerical facts about LAPACK results; no sound static argument bounds them.",
-    "C07": "Monotone descent quantifies over the runtime values of every iterate; the only structural clause (line-search acceptance guarded by an error comparison) is too small a share of the property to claim it.",
     "C09": "Error bounds in terms of the data's singular spectrum are purely numerical.",
     "C12": "Exact minimisers of prox problems are purely numerical (the sign-level defect of the non-negativity handler is decided under C10/C11).",
     "C13": "KKT optimality of solver output is purely numerical.",
